@@ -20,7 +20,8 @@ TECHNIQUE = "runtime monitoring: reference-model oracle over every compiled data
 LEVEL_TEXT = ("Every accessor of every compiled datafit is executed on thousands of generated (X, y, w) including "
               "threshold/overflow/tie/censoring/empty-column cases and compared with an independent numpy model of "
               "the documented loss and its derivatives; held = no disagreement beyond 1e-9 relative + forward error "
-              "bound on the cases listed in the evidence.")
+              "bound on the cases listed in the evidence. Half of the instances were initialised on other data of the "
+              "same shape before (a second initialisation must replace all stored state).")
 LEVEL_NOTE = ("trusted: vlib/refmath.py (self-tested against finite differences), numpy/scipy; covers only generated "
               "points; float64 only")
 RULE = ("cases = (datafit, data instance, evaluation point w, accessor); data classes: gaussian / scaled / shifted "
